@@ -210,11 +210,37 @@ class Gen:
     def ts_seq(self, n):
         """n non-decreasing timestamp tokens of one form (or None for all)."""
         r = self.rng
-        form = r.choice(['none', 'none', 'int', 'frac', 'nanos', 'mixed', 'neg', 'negfrac', 'enot', 'bigexp'])
+        form = r.choice(['none', 'none', 'int', 'frac', 'nanos', 'mixed', 'neg', 'negfrac', 'enot', 'bigexp',
+                         'zero', 'hugeint', 'epochns'])
         if form == 'none':
             return [None] * n
         base = r.randrange(0, 2000000000)
         out = []
+        if form == 'zero':
+            # starts at a timestamp of exactly zero (Timestamp(0, 0) or the float 0.0 / -0.0), then small steps
+            cur = 0
+            out.append(r.choice(['0', '0.0', '0e0', '-0.0', '0.000000000', '-0']))
+            for i in range(1, n):
+                step = r.choice([0, 1, 2])
+                cur += step
+                # an unchanged timestamp keeps its spelling: 1.0 and 1e0 are equal in value but of different classes,
+                # and the duplicate suppression is class-sensitive (see the note in c04b.py)
+                out.append(out[-1] if step == 0 else r.choice(['%d', '%de0', '%d.0']) % cur)
+            return out
+        if form == 'hugeint':
+            # integer seconds beyond 2^53: consecutive values are equal as doubles, not as timestamps
+            cur = 2 ** 53 + r.randrange(0, 1000)
+            for i in range(n):
+                cur += r.choice([0, 1, 1, 3])
+                out.append(str(cur))
+            return out
+        if form == 'epochns':
+            # one epoch-sized second, nanosecond steps (below the resolution of a double at that magnitude)
+            ns = r.randrange(0, 10 ** 9 - 1000)
+            for i in range(n):
+                ns += r.choice([0, 1, 1, 50])
+                out.append('%d.%09d' % (base, ns))
+            return out
         for i in range(n):
             base += r.choice([0, 0, 1, 5])
             if form == 'int':
@@ -316,10 +342,12 @@ class Gen:
         r = self.rng
         for ls in self.distinct_labelsets(r.randrange(1, 4)):
             nb = r.randrange(0, 5)
-            negative = r.random() < 0.2
+            negative = r.random() < 0.3
             pool = ['0.005', '0.01', '0.1', '0.5', '1', '1.0', '2.5', '5', '10', '1e2', '1e3', '2000.0', '1e100']
+            if r.random() < 0.4:
+                pool = pool + [r.choice(['0', '0.0', '-0.0', '0e0'])] * 6      # a bound of exactly zero, often
             if negative:
-                pool = ['-10', '-2.5', '-1', '-0.5'] + pool
+                pool = ['-10', '-2.5', '-1', '-0.5', '-1e-300'] + pool
             bounds = sorted(set(r.sample(pool, min(nb, len(pool)))), key=float)
             # remove numerically equal spellings
             seen, b2 = set(), []
@@ -436,6 +464,31 @@ class Gen:
 
     def document(self, **kw):
         return render(self.doc(**kw))
+
+
+def repeat_exposures(rng, doc):
+    """-> a copy of doc in which some groups are exposed a second time, straight after the first, at a later
+    timestamp (what a scrape history looks like).  NOT part of the valid-document generator: the unchanged parser keeps
+    group_timestamp_samples when the timestamp of a group advances, so in the second exposure every series but the
+    first is dropped as a duplicate, and a classic histogram with two or more buckets is rejected."""
+    from decimal import Decimal
+    d = copy.deepcopy(doc)
+    for f in d.families:
+        if f.typ == 'info':
+            continue
+        for gi, g in enumerate(f.groups):
+            if not g or any(s.raw is not None for s in g) or rng.random() < 0.4:
+                continue
+            exact = [_ts_exact(s.ts) for s in g]
+            if any(e is None for e in exact):
+                continue
+            top = max(exact)
+            again = copy.deepcopy(g)
+            for s, e in zip(again, exact):
+                s.ts = _ts_token(e + (top - min(exact)) + rng.choice([1, 5, Decimal('0.000000001')]))
+                s.exemplar = None
+            f.groups[gi] = g + again
+    return d
 
 
 # ---------------------------------------------------------------- token-level mutations
@@ -859,7 +912,34 @@ def _ts_num(tok):
     return float(tok)
 
 
+_TS_DIGITS = re.compile(r'^-?[0-9]+(\.[0-9]{1,9})?$')
+
+
+def _ts_exact(tok):
+    """the exact value of a token the parser reads as Timestamp(sec, nsec); None for float-class tokens"""
+    from decimal import Decimal
+    if tok is None or not _TS_DIGITS.match(tok):
+        return None
+    d = Decimal(tok)
+    if tok.startswith('-') and int(d) == 0:
+        return None                   # -0.x is read as a float
+    return d
+
+
+def _ts_is_float_token(tok):
+    """tokens the parser reads as a float: they carry an exponent (our generator writes no other float form)"""
+    return tok is not None and ('e' in tok or 'E' in tok) and not tok.lower().endswith(('inf', 'nan'))
+
+
+def _ts_token(d):
+    from decimal import Decimal
+    if d == d.to_integral_value():
+        return str(int(d))
+    return format(d.quantize(Decimal('0.000000001')), 'f')
+
+
 def v_ts_backwards(rng, doc):
+    from decimal import Decimal
     out = []
     for fi, f in enumerate(doc.families):
         if f.typ == 'info':
@@ -869,11 +949,27 @@ def v_ts_backwards(rng, doc):
                 if g[si].ts is None or g[si - 1].ts is None or g[si].raw is not None:
                     continue
                 prev = g[si - 1].ts
-                # a token strictly below the previous timestamp, in several spellings
+                toks = []
+                pe = _ts_exact(prev)
+                if pe is not None:
+                    # Timestamp against Timestamp is exact: one nanosecond and one second back, at any magnitude
+                    for d in (pe - Decimal('0.000000001'), pe - 1, pe - Decimal('0.5')):
+                        if _ts_exact(_ts_token(d)) is not None and Decimal(_ts_token(d)) < pe:
+                            toks.append(_ts_token(d))
+                # a token clearly below the previous timestamp, in several spellings (also against float-class ones)
                 base = int(float(prev))
-                for tok in (str(base - 1), '%d.5' % (base - 2), '%d.999999999' % (base - 1)):
-                    if float(tok) < float(prev) - 1e-3:
-                        out.append(_edit_sample(doc, (fi, gi, si), lambda f, g, s, tok=tok: setattr(s, 'ts', tok)))
+                for tok in (str(base - 1), '%d.5' % (base - 2), '%d.999999999' % (base - 1), '%de0' % (base - 2)):
+                    if float(tok) < float(prev) - 1e-3 and abs(float(prev)) < 2 ** 52:
+                        toks.append(tok)
+                # the smallest step back a double can express, written as a float-class token: against an integer
+                # Timestamp below 2^40 (exact as a double) or against a float-class timestamp the comparison is exact
+                import math
+                if (re.match(r'^[0-9]+$', prev) and int(prev) < 2 ** 40) or (pe is None and _ts_is_float_token(prev)):
+                    below = math.nextafter(float(prev), -math.inf)
+                    if math.isfinite(below) and below < float(prev):
+                        toks.append(repr(below) if 'e' in repr(below) else repr(below) + 'e0')
+                for tok in dict.fromkeys(toks):
+                    out.append(_edit_sample(doc, (fi, gi, si), lambda f, g, s, tok=tok: setattr(s, 'ts', tok)))
     return out
 
 
@@ -1073,4 +1169,15 @@ REGRESSION_DOCS = [
     '# TYPE a counter\na_total 1 ١.٥\n# EOF\n',
     '# TYPE a counter\na_total 1 -0.5\n# EOF\n',
     '# EOF', '# EOF\n', '', '\n', '# EOF\n\n',
+    # one group exposed at two successive timestamps: group_timestamp_samples is not reset when the timestamp advances
+    '# TYPE a histogram\na_bucket{le="+Inf"} 1 1\na_count 1 1\na_sum 1 1\na_bucket{le="+Inf"} 2 2\na_count 2 2\na_sum 2 2\n# EOF\n',
+    '# TYPE a histogram\na_bucket{le="1"} 1 1\na_bucket{le="+Inf"} 1 1\na_bucket{le="1"} 2 2\na_bucket{le="+Inf"} 2 2\n# EOF\n',
+    '# TYPE a counter\na_total 1 1\na_created 1 1\na_total 2 2\na_created 2 2\n# EOF\n',
+    '# TYPE a summary\na_count 1 1\na_sum 1 1\na_count 2 2\na_sum 2 2\n# EOF\n',
+    # zero bounds and zero / huge / nanosecond timestamps
+    '# TYPE a histogram\na_bucket{le="0.0"} 1\na_bucket{le="0"} 1\na_bucket{le="+Inf"} 1\n# EOF\n',
+    '# TYPE a histogram\na_bucket{le="-0.0"} 3\na_bucket{le="-2.5"} 3\na_bucket{le="+Inf"} 3\n# EOF\n',
+    '# TYPE a gauge\na 1 1700000000.000000100\na 2 1700000000.000000000\n# EOF\n',
+    '# TYPE a gauge\na 1 9007199254740993\na 2 9007199254740992\n# EOF\n',
+    '# TYPE a gauge\na 1 0e0\na 2 -1\n# EOF\n', '# TYPE a gauge\na 1 0e0\na 2\n# EOF\n',
 ]
